@@ -462,7 +462,9 @@ Section Handlers3.
     finalize_loop stack_fuel ;; do OFinalEOF.
 
   (** [lex]: the main loop with the iteration budget hook and the debug loop detector *)
-  Fixpoint main_loop (f : nat) : prog bool :=    (* true = left through the loop detector *)
+  Variable limit : N.        (* iteration budget of the verification hook: 8 * source_len + 64 *)
+
+  Fixpoint main_loop (f : nat) (last : N * list mode) : prog bool :=    (* true = left through the loop detector *)
     match f with
     | O => fuel_out false
     | S f' =>
@@ -470,46 +472,43 @@ Section Handlers3.
       match peek s with
       | None => ret false
       | Some c =>
-        over <- do OTick ;;
+        over <- do (OTick limit) ;;
         if over then ret false
         else
           lex_token c ;;
-          det <- do OLoopDetect ;;
-          if det then ret true else main_loop f'
+          '(det, last') <- do (OLoopDetect last) ;;
+          if det then ret true else main_loop f' last'
       end
     end.
 End Handlers3.
 
-(** the mode stack at end of input is unwound completely: its size bounds the fuel *)
-Definition lex_prog (msep : bool) (src_chars : nat) : prog unit :=
-  let F := S src_chars in
-  let budget := (8 * (4 * src_chars) + 64 + 2)%nat in
-  det <- main_loop F msep budget ;;
-  if det then ret tt
-  else
-    s <- get ;;
-    finalize_lexing (S (S (N.to_nat (s_nmodes s)))).
-
 Record lex_result : Set := mkLexResult {
   lr_outcome : option N;          (* [Some site] = panic *)
-  lr_state : st;                  (* final lexer state *)
+  lr_state : st;                  (* final lexer state (offsets relative to the text start) *)
   lr_end : st;                    (* state when the input was exhausted (before finalization) *)
   lr_buffer : tbuf;
   lr_errors : list err_info
 }.
 
-Definition lex (cfg : config) (src : list char) : lex_result :=
-  let n := List.length src in
-  let s0 := init src in
+(** the run on the text after the mark; [n_abs] = byte length of the whole source (the initial
+    value of the loop detector's remembered length) *)
+Definition lex_text (cfg : config) (bb bc : N) (text : list char) : lex_result :=
+  let n := List.length text in
+  let s0 := init text in
   let F := S n in
-  let budget := (8 * (4 * n) + 64 + 2)%nat in
-  match run (dbg cfg) (main_loop F (msep cfg) budget) s0 with
-  | Panic site s => mkLexResult (Some site) s s (into_detached s) (rev (s_errs s))
+  let budget := (8 * (4 * n) + 64 + 2 + 24)%nat in
+  let out s := into_detached bb bc s in
+  let errs s := map (shift_err bb bc) (rev (s_errs s)) in
+  match run (dbg cfg) (main_loop F (msep cfg) (8 * (blen text + bb) + 64) budget (blen text + bb, [MDefault])) s0 with
+  | Panic site s => mkLexResult (Some site) s s (out s) (errs s)
   | Done det s1 =>
-    if det then mkLexResult None s1 s1 (into_detached s1) (rev (s_errs s1))
+    if det then mkLexResult None s1 s1 (out s1) (errs s1)
     else
       match run (dbg cfg) (finalize_lexing (S (S (N.to_nat (s_nmodes s1))))) s1 with
-      | Panic site s => mkLexResult (Some site) s s1 (into_detached s) (rev (s_errs s))
-      | Done _ s2 => mkLexResult None s2 s1 (into_detached s2) (rev (s_errs s2))
+      | Panic site s => mkLexResult (Some site) s s1 (out s) (errs s)
+      | Done _ s2 => mkLexResult None s2 s1 (out s2) (errs s2)
       end
   end.
+
+Definition lex (cfg : config) (src : list char) : lex_result :=
+  let '((bb, bc), text) := split_bom src in lex_text cfg bb bc text.
